@@ -3,12 +3,18 @@ package main
 import (
 	"fmt"
 	"math/rand"
+	"sync/atomic"
+	"time"
 
 	"src.elv.sh/pkg/cli/histutil"
 	"src.elv.sh/pkg/store/storedefs"
 	"verif.local/harness/lib"
 	"verif.local/harness/storex"
 )
+
+// hung is set when a watchdog fired; the run then ends with an infrastructure error (exit 2 unless
+// real violations were recorded as well).
+var hung atomic.Bool
 
 func newRand(seed int64) *rand.Rand { return rand.New(rand.NewSource(seed)) }
 
@@ -79,6 +85,28 @@ func project(cmd storedefs.Cmd, err error) (Get, error) {
 	return Get{Ok: true, N: cmd.Seq, T: t}, nil
 }
 
+// errHang: a cursor move did not return (watchdog; machinery-level abort, never a verdict by itself).
+var errHang = fmt.Errorf("cursor move did not return within 20s")
+
+// guarded runs a cursor move under a watchdog so that a non-terminating move ends the run
+// instead of blocking it.
+func guarded(f func()) (err error) {
+	done := make(chan any, 1)
+	go func() {
+		defer func() { done <- recover() }()
+		f()
+	}()
+	select {
+	case p := <-done:
+		if p != nil {
+			return fmt.Errorf("panic in the real code: %v", p)
+		}
+		return nil
+	case <-time.After(20 * time.Second):
+		return errHang
+	}
+}
+
 // do performs one action on the real code and records the sequence number returned (adds) and
 // the cursor's Get afterwards (read twice: Get must not move the cursor).
 func (w *world) do(e Event) (out Event, err error) {
@@ -122,9 +150,9 @@ func (w *world) do1(e Event) (Event, error) {
 			w.cur = histutil.NewDedupCursor(w.cur)
 		}
 	case "Prev":
-		w.cur.Prev()
+		err = guarded(w.cur.Prev)
 	case "Next":
-		w.cur.Next()
+		err = guarded(w.cur.Next)
 	default:
 		return out, fmt.Errorf("unknown action %q", e.A)
 	}
@@ -167,6 +195,11 @@ func randomHistory(c *lib.Ctx, r *rand.Rand, db histDB, steps int) []Event {
 		}
 		ev, err := w.do(e)
 		c.AddEvals(1)
+		if err == errHang {
+			fail = true
+			hung.Store(true)
+			return
+		}
 		if err != nil {
 			fail = true
 			c.Reject("walk-error:"+e.A, fmt.Sprintf("%s failed: %v", e.A, err), append(append([]Event{}, evs...), e))
@@ -258,6 +291,9 @@ func probes(c *lib.Ctx, scratch string) ([][]Event, error) {
 		out, err := rerun(st, sc)
 		st.Close()
 		c.AddEvals(len(sc))
+		if err == errHang {
+			return nil, lib.Infra("a cursor move of the real code did not return within 20s in probe %d", i)
+		}
 		if err != nil {
 			c.Reject("walk-error:probe", err.Error(), sc)
 			continue
